@@ -48,6 +48,17 @@
 //     "typed" seams record GCall "M" [GNum x | GBytes b ..] (byte-slice arguments); a method with an "oracle"
 //     (result types) makes the function take o_M : list gcall -> results, applied to the trace that already
 //     contains the call (a, b := t.f.M(..) binds its components): any deterministic callee can be supplied;
+//   - functions WITHOUT receiver marked "world": true are translated in this monadic mode over the synthetic record
+//     `world` (only the trace); calls of the package-level function variables listed in config "fnseams"
+//     (e.g. mapFn(page, frame, flags)) are typed seam events with oracles, as above;
+//   - config "join": an if statement whose branches only assign local variables (pure right-hand sides, no return /
+//     break / continue) is translated as `let vars := if c then .. else .. in rest`, so the code after it is not
+//     duplicated into the branches;
+//   - panic(x) is GPanic; a parameter of pointer type stands for its pointee when the body assigns `*p = e` (the
+//     final value is returned after the results) and is an opaque number when it is only passed on; config
+//     "extvars": variables of other packages that are only read become extra parameters; "fnseams" may also name
+//     package-qualified functions (mm.AllocFrame);
+//   - config "lenonly": slice fields of which the code only takes len() are modelled by that length;
 //   - p[lo:hi] of a []byte parameter (capacity taken to be the length);
 //   - several structs per config (records are emitted in dependency order; config "ignore" leaves fields such as
 //     unsafe slice headers out); fields that are slices of unsigned words ([]uint64: list N, stores wrap at the
@@ -62,7 +73,8 @@
 //     in a return; named bool types (config types: -1); seams on a VALUE field (config "value": no nil check),
 //     e.g. a sync.Spinlock whose Acquire / Release become events;
 // A field assignment r.f = e is `set_f_<T>_<f> r e` (one setter per field, generated after the Record).
-// Variables of inner scopes must not shadow variables of enclosing scopes (rejected).
+// A variable declared with := that shadows a variable of an enclosing scope is renamed apart (in the rest of its
+// statement list; for `if x := e; cond` in that statement); var declarations and range variables must not shadow.
 package main
 
 import (
@@ -83,6 +95,9 @@ type fnSpec struct {
 	Pkg  string `json:"pkg"`
 	Recv string `json:"recv"` // "" or receiver type name
 	Name string `json:"name"`
+	// World: a function WITHOUT receiver translated in monadic mode over the synthetic record `world` (just the
+	// trace of the calls it makes through the package-level function variables listed in config "fnseams")
+	World bool `json:"world"`
 }
 
 type config struct {
@@ -97,6 +112,10 @@ type config struct {
 	Gres    bool                `json:"gres"`   // extended mode: results in gres (GOk | GPanic | GFuel), loops, stores, switch, int, seams
 	Seams   map[string]seamSpec `json:"seams"`  // struct type name -> the interface-typed field whose method calls are recorded as events
 	Ignore  map[string][]string `json:"ignore"` // struct type name -> fields left out of the record (never touched by the translated functions)
+	FnSeams map[string]seamMethod `json:"fnseams"` // package-level function variable -> how its calls are recorded ("world" functions)
+	LenOnly map[string][]string   `json:"lenonly"` // struct type name -> slice fields of which only len() is used: modelled by their length (an N)
+	ExtVars map[string]string     `json:"extvars"` // Go expression text of a variable of another package that is only read -> "coqname:width": an extra parameter
+	Join    bool                  `json:"join"`    // an if statement whose branches only assign locals is `let vars := if c then .. else .. in rest` (no duplication of rest)
 }
 
 // seamSpec describes calls that leave the translated code through an interface value: t.<Field>.M(args) (or
@@ -256,6 +275,9 @@ type translator struct {
 	seamUsed  map[string]int // s_M_i -> width: seam results used, become parameters
 	seamRecv  string         // Coq term of the seam reference while translating a tuple assignment from a seam call
 	oracleUsed map[string]string // o_M -> Coq type: seam oracles used, become parameters
+	extUsed    map[string]int    // coq name -> width: variables of other packages read, become parameters
+	ptrParams  map[string]bool   // parameters of pointer type
+	inoutTy    map[string]tinfo
 }
 
 // ctx: where break / continue / return lead at the current point of the translation
@@ -336,8 +358,12 @@ func (tr *translator) resultTy(en *env) string {
 	for _, r := range tr.results {
 		parts = append(parts, coqTy(r))
 	}
-	for range tr.inout {
-		parts = append(parts, "list N")
+	for _, p := range tr.inout {
+		if tr.ptrParams[p] {
+			parts = append(parts, coqTy(tr.inoutTy[p]))
+		} else {
+			parts = append(parts, "list N")
+		}
 	}
 	return "(" + recName(structPkg[tr.mon], tr.mon) + " * " + prodOf(parts) + ")%type"
 }
@@ -362,6 +388,10 @@ func assigned(stmts []ast.Stmt, out map[string]bool) {
 		case *ast.IndexExpr:
 			if id, ok := l.X.(*ast.Ident); ok {
 				out[id.Name] = true
+			}
+		case *ast.StarExpr:
+			if id, ok := l.X.(*ast.Ident); ok {
+				out["*"+id.Name] = true
 			}
 		}
 	}
@@ -467,6 +497,18 @@ func (tr *translator) seamCall(e ast.Expr, en *env) (recv string, name string, m
 	c, isCall := e.(*ast.CallExpr)
 	if !isCall {
 		return
+	}
+	if fsel, isFs := c.Fun.(*ast.SelectorExpr); isFs && tr.mon == "world" {
+		if fm, known := cfg.FnSeams[exprText(fsel)]; known {
+			return "true", exprText(fsel), fm, c, true
+		}
+	}
+	if id, isId := c.Fun.(*ast.Ident); isId && tr.mon == "world" {
+		if fm, known := cfg.FnSeams[id.Name]; known {
+			if _, shadowed := en.vars[id.Name]; !shadowed {
+				return "true", id.Name, fm, c, true
+			}
+		}
 	}
 	sel, isSel := c.Fun.(*ast.SelectorExpr)
 	if !isSel {
@@ -634,6 +676,11 @@ func (tr *translator) expr(e ast.Expr, en *env) (string, tinfo) {
 		if c, ok := cfg.Consts[txt]; ok {
 			return constInfo(c)
 		}
+		if c, ok := cfg.ExtVars[txt]; ok && cfg.Gres {
+			n, ti := constInfo(c)
+			tr.extUsed[n] = ti.width
+			return n, ti
+		}
 		if tag, ok := cfg.Errors[txt]; ok {
 			return fmt.Sprintf("(Some %q%%string)", tag), tinfo{width: -2}
 		}
@@ -706,6 +753,9 @@ func (tr *translator) expr(e ast.Expr, en *env) (string, tinfo) {
 	case *ast.StarExpr:
 		if id, ok := t.X.(*ast.Ident); ok && id.Name == tr.ptrRecv {
 			return v(id.Name), en.vars[id.Name]
+		}
+		if id, ok := t.X.(*ast.Ident); ok && cfg.Gres && tr.ptrParams[id.Name] {
+			return v(id.Name), en.vars[id.Name] // *p of a pointer parameter: the parameter stands for the pointee
 		}
 	case *ast.UnaryExpr:
 		x, ti := tr.expr(t.X, en)
@@ -836,6 +886,11 @@ func (tr *translator) expr(e ast.Expr, en *env) (string, tinfo) {
 		}
 	case *ast.CallExpr:
 		// len(x) of a []byte field
+		if id, ok := t.Fun.(*ast.Ident); ok && id.Name == "len" && len(t.Args) == 1 && tr.mon != "" && cfg.Gres {
+			if f, isF := tr.recvField(t.Args[0]); isF && f.width == -10 {
+				return "(" + fieldName(tr.mon, f.name) + " " + v(tr.ptrRecv) + ")", tinfo{width: 64, signed: true}
+			}
+		}
 		if id, ok := t.Fun.(*ast.Ident); ok && id.Name == "len" && len(t.Args) == 1 && tr.mon != "" {
 			xs, xt := tr.expr(t.Args[0], en)
 			if xt.width == -4 {
@@ -936,6 +991,14 @@ func (tr *translator) expr(e ast.Expr, en *env) (string, tinfo) {
 		found := false
 		switch f := t.Fun.(type) {
 		case *ast.SelectorExpr:
+			if pid, isPkg := f.X.(*ast.Ident); isPkg {
+				if _, isVar := en.vars[pid.Name]; !isVar {
+					if sp, ok := tr.funcs[exprText(f)]; ok && pid.Name != tr.ptrRecv {
+						spec, found = sp, true
+						break
+					}
+				}
+			}
 			rs, rt := tr.expr(f.X, en)
 			if rt.named != "" {
 				if s, ok := tr.funcs[rt.named+"."+f.Sel.Name]; ok {
@@ -962,7 +1025,7 @@ func (tr *translator) expr(e ast.Expr, en *env) (string, tinfo) {
 			return "(" + coqName(spec.Pkg, spec.Recv, spec.Name) + " " + strings.Join(args, " ") + ")", rt
 		}
 	}
-	fail("%s.%s: unsupported expression %T at %v", tr.fn.Recv, tr.fn.Name, e, e.Pos())
+	fail("%s.%s: unsupported expression %T (%s) at %v", tr.fn.Recv, tr.fn.Name, e, exprText(e), e.Pos())
 	return "", tinfo{}
 }
 
@@ -970,6 +1033,7 @@ var resultTypes = map[string]tinfo{}
 var monResults = map[string][]tinfo{}
 var monInout = map[string]bool{}
 var monFuel = map[string]bool{}
+var shadowCount int
 
 func (tr *translator) ret(vals []string, en *env) string {
 	if tr.mon != "" {
@@ -1087,10 +1151,10 @@ func (tr *translator) block(stmts []ast.Stmt, en *env, k func(en *env) string) s
 			}
 			return tr.block(append(seq, stmts[1:]...), en, k)
 		}
-		if len(s.Rhs) == 1 && len(s.Lhs) > 1 && (s.Tok == token.ASSIGN || s.Tok == token.DEFINE) && cfg.Gres {
+		if len(s.Rhs) == 1 && (s.Tok == token.ASSIGN || s.Tok == token.DEFINE) && cfg.Gres {
 			// a, b = x.M(args) through the seam: the results are parameters s_M_i of the translation, or, with an
-			// oracle, the value of o_M on the trace that already contains this call
-			if recv, name, m, call, ok := tr.seamCall(s.Rhs[0], en); ok {
+			// oracle, the value of o_M on the trace that already contains this call (then also a single a = x.M(args))
+			if recv, name, m, call, ok := tr.seamCall(s.Rhs[0], en); ok && (len(s.Lhs) > 1 || len(m.Oracle) > 0) {
 				nres := len(m.Results)
 				if len(m.Oracle) > 0 {
 					nres = len(m.Oracle)
@@ -1121,8 +1185,13 @@ func (tr *translator) block(stmts []ast.Stmt, en *env, k func(en *env) string) s
 						tys = append(tys, coqTy(ti))
 						seq = append(seq, &ast.AssignStmt{Lhs: []ast.Expr{l}, Tok: s.Tok, Rhs: []ast.Expr{ast.NewIdent(ov)}})
 					}
-					tr.oracleUsed["o_"+name] = "list gcall -> " + prodOf(tys)
-					body += "let '" + tupleOf(pats, "") + " := o_" + name + " (" + fieldName(tr.mon, "trace") + " " + v(tr.ptrRecv) + ") in\n  "
+					oname := "o_" + strings.ReplaceAll(name, ".", "_")
+					tr.oracleUsed[oname] = "list gcall -> " + prodOf(tys)
+					lp := "let '"
+					if len(pats) == 1 {
+						lp = "let "
+					}
+					body += lp + tupleOf(pats, "") + " := " + oname + " (" + fieldName(tr.mon, "trace") + " " + v(tr.ptrRecv) + ") in\n  "
 				} else {
 					for i, l := range s.Lhs {
 						sv := fmt.Sprintf("s_%s_%d", name, i)
@@ -1131,6 +1200,9 @@ func (tr *translator) block(stmts []ast.Stmt, en *env, k func(en *env) string) s
 					}
 				}
 				body += tr.block(append(seq, stmts[1:]...), en2, k)
+				if recv == "true" {
+					return tr.wrapPre(pre, body)
+				}
 				return tr.wrapPre(pre, "if "+recv+"\n  then ("+body+")\n  else (GPanic)")
 			}
 		}
@@ -1229,6 +1301,9 @@ func (tr *translator) block(stmts []ast.Stmt, en *env, k func(en *env) string) s
 			if id, ok := l.X.(*ast.Ident); ok && id.Name == tr.ptrRecv {
 				name = id.Name
 			}
+			if id, ok := l.X.(*ast.Ident); ok && cfg.Gres && tr.ptrParams[id.Name] {
+				name = id.Name
+			}
 		}
 		if name == "" {
 			fail("%s: unsupported assignment target", tr.fn.Name)
@@ -1250,7 +1325,29 @@ func (tr *translator) block(stmts []ast.Stmt, en *env, k func(en *env) string) s
 			}
 			if cfg.Gres {
 				if _, dup := en.vars[name]; dup {
-					fail("%s: %s := shadows a variable of an enclosing scope", tr.fn.Name, name)
+					// x := e in an inner block where x shadows a variable of an enclosing scope: the new x lives in the
+					// rest of this statement list, where it is renamed apart (in the syntax tree, once)
+					ast.Inspect(s.Rhs[0], func(n ast.Node) bool {
+						if x, ok := n.(*ast.Ident); ok && x.Name == name {
+							fail("%s: %s := ... uses the variable it shadows", tr.fn.Name, name)
+						}
+						return true
+					})
+					shadowCount++
+					fresh := fmt.Sprintf("%s_s%d", name, shadowCount)
+					for _, st := range stmts[1:] {
+						ast.Inspect(st, func(n ast.Node) bool {
+							if x, ok := n.(*ast.Ident); ok && x.Name == name {
+								x.Name = fresh
+							}
+							return true
+						})
+					}
+					if id, ok := s.Lhs[0].(*ast.Ident); ok {
+						id.Name = fresh
+					}
+					name = fresh
+					coq = v(name)
 				}
 				if lt.width == -4 {
 					fail("%s: %s := of a slice (aliasing)", tr.fn.Name, name)
@@ -1296,6 +1393,10 @@ func (tr *translator) block(stmts []ast.Stmt, en *env, k func(en *env) string) s
 			fail("%s: expression statement", tr.fn.Name)
 		}
 		if cfg.Gres {
+			// panic(x): an explicit run-time panic
+			if c, ok := s.X.(*ast.CallExpr); ok && exprText(c.Fun) == "panic" && len(c.Args) == 1 {
+				return "GPanic"
+			}
 			// copy(dst, src): dst a local byte slice, src a byte slice value
 			if c, ok := s.X.(*ast.CallExpr); ok && exprText(c.Fun) == "copy" && len(c.Args) == 2 {
 				id, ok := c.Args[0].(*ast.Ident)
@@ -1398,6 +1499,41 @@ func (tr *translator) block(stmts []ast.Stmt, en *env, k func(en *env) string) s
 		}
 		return out + rest(en2)
 	case *ast.IfStmt:
+		if as, ok := s.Init.(*ast.AssignStmt); ok && cfg.Gres && as.Tok == token.DEFINE {
+			// `if x := e; cond {..}` where x shadows a variable of an enclosing scope: x lives only inside this
+			// statement, so it is renamed apart (in the syntax tree, once)
+			for _, l := range as.Lhs {
+				id, isId := l.(*ast.Ident)
+				if !isId {
+					continue
+				}
+				if _, dup := en.vars[id.Name]; dup {
+					shadowCount++
+					old, fresh := id.Name, fmt.Sprintf("%s_s%d", id.Name, shadowCount)
+					rename := func(n ast.Node) bool {
+						if x, ok := n.(*ast.Ident); ok && x.Name == old {
+							x.Name = fresh
+						}
+						return true
+					}
+					for _, r := range as.Rhs {
+						// the right-hand side still refers to the outer variable
+						ast.Inspect(r, func(n ast.Node) bool {
+							if x, ok := n.(*ast.Ident); ok && x.Name == old {
+								fail("%s: %s := ... uses the variable it shadows", tr.fn.Name, old)
+							}
+							return true
+						})
+					}
+					id.Name = fresh
+					ast.Inspect(s.Cond, rename)
+					ast.Inspect(s.Body, rename)
+					if s.Else != nil {
+						ast.Inspect(s.Else, rename)
+					}
+				}
+			}
+		}
 		if s.Init != nil {
 			return tr.block(append([]ast.Stmt{s.Init, &ast.IfStmt{Cond: s.Cond, Body: s.Body, Else: s.Else}}, stmts[1:]...), en, k)
 		}
@@ -1414,6 +1550,40 @@ func (tr *translator) block(stmts []ast.Stmt, en *env, k func(en *env) string) s
 				first = &ast.IfStmt{Cond: be.X, Body: &ast.BlockStmt{List: []ast.Stmt{&ast.IfStmt{Cond: be.Y, Body: s.Body, Else: els}}}, Else: els}
 			}
 			return tr.block(append([]ast.Stmt{first}, stmts[1:]...), en, k)
+		}
+		if cfg.Join && cfg.Gres {
+			as := map[string]bool{}
+			if tr.pureIf(s, en, as) && len(as) > 0 {
+				// the branches only assign locals: bind their new values, then go on once
+				var names []string
+				for n := range as {
+					names = append(names, n)
+				}
+				sort.Strings(names)
+				var vs []string
+				for _, n := range names {
+					vs = append(vs, v(n))
+				}
+				tup := tupleOf(vs, "")
+				fin := func(*env) string { return tup }
+				c, _ := tr.expr(s.Cond, en)
+				if len(tr.pre) > 0 {
+					fail("%s: internal: hoist in a pure if", tr.fn.Name)
+				}
+				thn := tr.block(s.Body.List, en, fin)
+				els := tup
+				switch e := s.Else.(type) {
+				case *ast.BlockStmt:
+					els = tr.block(e.List, en, fin)
+				case *ast.IfStmt:
+					els = tr.block([]ast.Stmt{e}, en, fin)
+				}
+				lp := "let '" + tup
+				if len(names) == 1 {
+					lp = "let " + tup
+				}
+				return lp + " := (if " + c + "\n  then (" + thn + ")\n  else (" + els + ")) in\n  " + rest(en)
+			}
 		}
 		c, _ := tr.expr(s.Cond, en)
 		pre := tr.takePre(s.Cond)
@@ -1433,6 +1603,9 @@ func (tr *translator) block(stmts []ast.Stmt, en *env, k func(en *env) string) s
 		}
 		return tr.wrapPre(pre, "if "+c+"\n  then ("+thn+")\n  else ("+els+")")
 	case *ast.BlockStmt:
+		if cfg.Gres {
+			return tr.block(s.List, en, func(*env) string { return rest(en) }) // its own scope
+		}
 		return tr.block(append(append([]ast.Stmt{}, s.List...), stmts[1:]...), en, k)
 	case *ast.EmptyStmt:
 		return rest(en)
@@ -1452,8 +1625,8 @@ func (tr *translator) block(stmts []ast.Stmt, en *env, k func(en *env) string) s
 	case *ast.ForStmt:
 		if cfg.Gres && tr.mon != "" {
 			if s.Init != nil {
-				if as, ok := s.Init.(*ast.AssignStmt); !ok || as.Tok != token.DEFINE {
-					fail("%s: loop initialisation must be a := statement", tr.fn.Name)
+				if as, ok := s.Init.(*ast.AssignStmt); !ok || (as.Tok != token.DEFINE && as.Tok != token.ASSIGN) {
+					fail("%s: loop initialisation must be a := or = statement", tr.fn.Name)
 				}
 				return tr.block([]ast.Stmt{s.Init}, en, func(en2 *env) string { return tr.forLoop(s, en2, func(*env) string { return rest(en) }) })
 			}
@@ -1582,6 +1755,67 @@ func (tr *translator) pathStore(lhs ast.Expr, tok token.Token, rhs ast.Expr, en 
 	}
 	pre := tr.takePre(es...)
 	return tr.wrapPre(pre, "let "+v(tr.ptrRecv)+" := "+upd+" in\n  "+rest(en))
+}
+
+// pureIf: the branches of s only assign local variables with right-hand sides that need no hoisting (no element
+// reads, no calls of methods), and contain no return / break / continue: the names assigned, or ok = false
+func (tr *translator) pureIf(s *ast.IfStmt, en *env, out map[string]bool) bool {
+	if s.Init != nil || needsHoist(s.Cond) {
+		return false
+	}
+	var pureBlock func(list []ast.Stmt) bool
+	pureBlock = func(list []ast.Stmt) bool {
+		for _, st := range list {
+			switch a := st.(type) {
+			case *ast.AssignStmt:
+				if a.Tok == token.DEFINE || len(a.Lhs) != 1 || len(a.Rhs) != 1 {
+					return false
+				}
+				id, ok := a.Lhs[0].(*ast.Ident)
+				if !ok {
+					return false
+				}
+				if _, isVar := en.vars[id.Name]; !isVar || needsHoist(a.Rhs[0]) {
+					return false
+				}
+				out[id.Name] = true
+			case *ast.IncDecStmt:
+				id, ok := a.X.(*ast.Ident)
+				if !ok {
+					return false
+				}
+				if _, isVar := en.vars[id.Name]; !isVar {
+					return false
+				}
+				out[id.Name] = true
+			case *ast.IfStmt:
+				if !tr.pureIf(a, en, out) {
+					return false
+				}
+			case *ast.EmptyStmt:
+			default:
+				return false
+			}
+		}
+		return true
+	}
+	if !pureBlock(s.Body.List) {
+		return false
+	}
+	switch e := s.Else.(type) {
+	case nil:
+	case *ast.BlockStmt:
+		if !pureBlock(e.List) {
+			return false
+		}
+	case *ast.IfStmt:
+		if !tr.pureIf(e, en, out) {
+			return false
+		}
+	default:
+		return false
+	}
+	return true
 }
 
 // needsHoist: does evaluating e involve a bounds-checked read or a call that must be hoisted?
@@ -1960,6 +2194,11 @@ func main() {
 							continue
 						}
 						w := sf.width
+						for _, lo := range cfg.LenOnly[st] {
+							if lo == n.Name && cfg.Gres {
+								w = -10
+							}
+						}
 						for _, o := range cfg.Opaque[st] {
 							if o == n.Name {
 								w = -6
@@ -1978,6 +2217,23 @@ func main() {
 		}
 		if _, ok := cfg.Seams[st]; ok && cfg.Gres {
 			structFields[st] = append(structFields[st], sfield{name: "trace", width: -7})
+		}
+	}
+	for _, f := range cfg.Funcs {
+		if f.World && cfg.Gres {
+			if _, done := structPkg["world"]; !done {
+				structPkg["world"] = f.Pkg
+				structFields["world"] = []sfield{{name: "trace", width: -7}}
+				if cfg.Seams == nil {
+					cfg.Seams = map[string]seamSpec{}
+				}
+				cfg.Seams["world"] = seamSpec{Typed: true, Value: true, Methods: cfg.FnSeams}
+				if cfg.Structs == nil {
+					cfg.Structs = map[string]string{}
+				}
+				cfg.Structs["world"] = "(synthetic: the trace of the calls through " + f.Pkg + "'s function variables)"
+				snames = append(snames, "world")
+			}
 		}
 	}
 	// records are printed after the records their fields mention
@@ -2080,9 +2336,14 @@ func main() {
 		if decl == nil {
 			fail("function %s.%s not found in %s", spec.Recv, spec.Name, spec.File)
 		}
-		tr := &translator{pkg: spec.Pkg, fn: spec, funcs: funcs, usedGlob: map[string]bool{}, seamUsed: map[string]int{}, oracleUsed: map[string]string{}}
+		tr := &translator{pkg: spec.Pkg, fn: spec, funcs: funcs, usedGlob: map[string]bool{}, seamUsed: map[string]int{}, oracleUsed: map[string]string{}, extUsed: map[string]int{}, ptrParams: map[string]bool{}, inoutTy: map[string]tinfo{}}
 		en := &env{vars: map[string]tinfo{}}
 		var params []string
+		if decl.Recv == nil && spec.World && cfg.Gres {
+			tr.mon = "world"
+			tr.ptrRecv = "world"
+			params = append(params, "("+v("world")+" : "+recName(structPkg["world"], "world")+")")
+		}
 		if decl.Recv != nil {
 			r := decl.Recv.List[0]
 			ti := typeOf(r.Type, spec.Pkg)
@@ -2122,6 +2383,9 @@ func main() {
 				fail("%s: unsupported parameter type", spec.Name)
 			}
 			for _, n := range p.Names {
+				if _, isPtr := p.Type.(*ast.StarExpr); isPtr && cfg.Gres {
+					tr.ptrParams[n.Name] = true
+				}
 				en.vars[n.Name] = ti
 				if ti.width < 0 {
 					params = append(params, "("+v(n.Name)+" : "+coqTy(ti)+")")
@@ -2179,6 +2443,11 @@ func main() {
 					if en.vars[n.Name].width == -4 && as[n.Name] {
 						tr.inout = append(tr.inout, n.Name)
 					}
+					tr.inoutTy[n.Name] = en.vars[n.Name]
+					if tr.ptrParams[n.Name] && as["*"+n.Name] {
+						// a pointer parameter assigned through: it stands for the pointee, whose final value is returned
+						tr.inout = append(tr.inout, n.Name)
+					}
 				}
 			}
 		}
@@ -2212,6 +2481,14 @@ func main() {
 		sort.Strings(svs)
 		for _, sv := range svs {
 			params = append(params, "("+sv+" : N)")
+		}
+		var evs []string
+		for ev := range tr.extUsed {
+			evs = append(evs, ev)
+		}
+		sort.Strings(evs)
+		for _, ev := range evs {
+			params = append(params, "("+ev+" : N)")
 		}
 		var ovs []string
 		for ov := range tr.oracleUsed {
